@@ -56,6 +56,14 @@ def directed_cases():
             out.append({"id": f"hardlink{v}-{d}", "names": ["a.cfg", "b.cfg", "c"], "secs": [1_700_000_000, 1_600_000_000, 5],
                         "src": [[1, 1, 0], srcb, [2, 1, 0]], "dst": [[1, 1, 0], [1, 1, 0], []], "dst_links": [[0, 1]],
                         "pats": [], "del": dl, "dry": False, "dir": d, "jobs": 1 + v % 2})
+    # names that merely CONTAIN the staging suffix (a backup of a staging file, a directory named after one): ordinary files -
+    # delivered, matched, removed with --delete like any other
+    for d in ("local", "push", "pull"):
+        for v, dl in enumerate([False, True]):
+            out.append({"id": f"stgname{v}-{d}", "names": ["keep.copia-tmp.orig", "report.copia-tmp.bak", "snap.copia-tmp.d/inner", "z"],
+                        "secs": [1_700_000_000, 1_600_000_000, 5],
+                        "src": [[], [1, 1, 0], [2, 1, 0], [3, 1, 0]], "dst": [[2, 2, 0], [], [1, 2, 0], [3, 1, 0]],
+                        "pats": [], "del": dl, "dry": False, "dir": d, "jobs": 1 + v})
     return out
 
 
